@@ -950,9 +950,10 @@ CHECKS = {
         "C18",
         "c18",
         "every string s up to length 2 (quick) / 3 (thorough) over 41 characters (all 14 syntax characters, v-mode punctuators, letters with fold partners, multi-byte, line terminators) plus seeded random longer strings; escape(s) compiled under all 24 flag sets and searched in 5 haystacks with s (and case variants) planted. non-trivial iff s is non-empty and occurs.",
-        ["without i the oracle is naive substring search with the find_iter advance rule; with i character-wise comparison under uniref's canonical equivalence (legacy: std to_uppercase rule; u/v: simple case folding orbits)"],
-        required=["case_insensitive_cases"],
-        extra=lambda m: dict(strings=m.c("strings"), exhaustive=True),
+        ["second stage (nightly pattern build, counters c18pat.*): escape(s) as a std::str::pattern::Pattern -- match_indices / split / contains / find against the same occurrence oracle (without i)", "without i the oracle is naive substring search with the find_iter advance rule; with i character-wise comparison under uniref's canonical equivalence (legacy: std to_uppercase rule; u/v: simple case folding orbits)"],
+        required=["case_insensitive_cases", "case_related_single_character_strings", "c18pat.pattern_trait_cases"],
+        extra_stages=[("pattern", "c18pat")],
+        extra=lambda m: dict(strings=m.c("strings"), case_related_single_character_strings=m.c("case_related_single_character_strings"), pattern_trait_cases=m.c("c18pat.pattern_trait_cases"), exhaustive=True),
     ),
     "C13": simple_check(
         "C13",
